@@ -558,7 +558,7 @@ def field_last_comparisons(prog, r):
                                 '%s compares a field code with DBUS_HEADER_FIELD_LAST using `%s`: the last known '
                                 'field is treated as unknown (or an unknown one as known); every sibling uses '
                                 '`> LAST` / `<= LAST`' % (f.name, op))
-    if n < 8:
+    if n < 5:
         raise AnalysisBroken('only %d comparisons with DBUS_HEADER_FIELD_LAST found' % n)
 
 
